@@ -5,6 +5,7 @@ import os
 import re
 import subprocess
 import time
+import uuid
 
 from .core import SPECS, NCPU, MachineryFailure
 
@@ -56,8 +57,8 @@ def run_tlc(spec, cfg, scratch, *, workers=NCPU, timeout=3600, env=None, simulat
             xmx="8g", extra=(), constants=""):
     """spec: path of .tla (module found beside its EXTENDS), cfg: path of the .cfg. Returns TlcResult (never raises on violations)."""
     spec = str(spec)
-    meta = os.path.join(str(scratch), "meta-%d-%d" % (os.getpid(), int(time.time() * 1e6) % 10**9))
-    cmd = ["java", "-XX:+UseParallelGC", "-Xmx" + xmx]
+    meta = os.path.join(str(scratch), "meta-" + uuid.uuid4().hex[:12])
+    cmd = ["java", "-XX:+UseParallelGC", "-Xss256m", "-Xmx" + xmx]
     if deque:
         cmd.append("-Dtlc2.tool.queue.IStateQueue=StateDeque")
     cmd += ["-cp", JAR, "tlc2.TLC", "-workers", str(workers), "-metadir", meta, "-noGenerateSpecTE", "-config", str(cfg)]
@@ -144,7 +145,7 @@ def validate_traces(ctx, module, records, *, batch=2000, cfg=None, constants=Non
     if not records:
         return {}
     spec = SPECS / (module + ".tla")
-    tdir = ctx.scratch / ("tr-%s-%d" % (module, int(time.time() * 1e6) % 10**9))
+    tdir = ctx.scratch / ("tr-%s-%s" % (module, uuid.uuid4().hex[:12]))
     tdir.mkdir()
     if cfg is None:
         cfg = write_cfg(tdir / "t.cfg", constants=constants)
